@@ -557,6 +557,8 @@ def baseline(name):
 
 
 def _ensure_initial_state():
+    core.snapshot_library_state()
+    core.reset_mutable_defaults()        # state hidden in mutable default arguments is not in the globals digest
     if _SNAP[0] is None:
         if _BASE:
             raise core.HarnessError("module state snapshot requested after calls were made")
